@@ -438,3 +438,71 @@ Contract(
     },
     properties=["C04", "C07", "C11", "C14"],
 )
+
+
+# ---------------------------------------------------------------------------
+# preprocessing of the z3 back-ends: the partition of the base, translated conditional by conditional
+# ---------------------------------------------------------------------------
+from contracts.c_consistency_sat import BeliefBaseT  # noqa: E402
+from contracts.c_inference import PartT, base_items  # noqa: E402
+from contracts.spec import PS as _PS  # noqa: E402
+
+
+def _same(cz, c):
+    return z3.And(L.M(L.ant(cz)) == L.M(L.ant(c)), L.M(L.cons(cz)) == L.M(L.cons(c)))
+
+
+def _layer_eq(lz, l, upto, name):
+    k = z3.Int("_le_k_" + name)
+    return L.Forall([k], [LCnd.at(lz, k)], z3.Implies(z3.And(0 <= k, k < upto), _same(LCnd.at(lz, k), LCnd.at(l, k))), "layer.translated." + name)
+
+
+def _part_eq(Pz, P, upto):
+    i, k = z3.Ints("_pe_i _pe_k")
+    return [
+        L.Forall([i], [LLCnd.at(Pz, i)], z3.Implies(z3.And(0 <= i, i < upto), LCnd.len(LLCnd.at(Pz, i)) == LCnd.len(LLCnd.at(P, i))), "partition.translated.len"),
+        L.Forall(
+            [i, k],
+            [LCnd.at(LLCnd.at(Pz, i), k)],
+            z3.Implies(z3.And(0 <= i, i < upto, 0 <= k, k < LCnd.len(LLCnd.at(P, i))), _same(LCnd.at(LLCnd.at(Pz, i), k), LCnd.at(LLCnd.at(P, i), k))),
+            "partition.translated",
+        ),
+    ]
+
+
+def _zpre_post(c, r):
+    d, cs = base_items(c)
+    st = _PS.stop(cs)
+    rest = _PS.GR(cs, st)
+    w = c.weakly.t
+    incons = z3.If(w, L.isempty(_PS.KL((), rest)), LCnd.len(rest) > 0)
+    part = z3.If(w, LLCnd.snoc(_PS.GLs(cs, st), _PS.GR(cs, st + 1)), _PS.GLs(cs, st))
+    Pz = c.es("partition").t
+    guard = z3.And(z3.Not(incons), LLCnd.len(part) > 0)
+    out = [z3.Implies(z3.Not(guard), LLCnd.len(Pz) == 0), z3.Implies(guard, LLCnd.len(Pz) == LLCnd.len(part))]
+    for fa in _part_eq(Pz, part, LLCnd.len(part)):
+        out.append(L.Forall(fa.vars, fa.triggers, z3.Implies(guard, fa.body), fa.name))
+    return out
+
+
+def _zpre_outer(s, j, pre):
+    Pz = s.es("partition").t
+    P = s.partition.val.t
+    return [LLCnd.len(Pz) == j] + _part_eq(Pz, P, j)
+
+
+def _zpre_inner(s, j, pre):
+    return [LCnd.len(s.translated_part.t) == j, _layer_eq(s.translated_part.t, s.part.t, j, "inner"), s.es("partition").t == pre.es("partition").t]
+
+
+for _mod, _cls in (("inference.system_w_z3", "SystemWZ3"), ("inference.lex_inf_z3", "LexInfZ3")):
+    Contract(
+        f"{_mod}:{_cls}._preprocess_belief_base",
+        params={"self": SelfT(_cls, partition=PZ3), "weakly": TBool, "deadline": DeadlineT},
+        returns=TNone,
+        ensures=_zpre_post,
+        locals={"translated_part": TList(TCnd)},
+        loops={0: LoopSpec("for part in partition", _zpre_outer), 1: LoopSpec("for conditional in part", _zpre_inner)},
+        properties=["C03" if _cls == "SystemWZ3" else "C04", "C07", "C13"],
+        note="the stored partition is the greedy partition of the base with every conditional replaced by a semantically equal z3 conditional",
+    )
